@@ -47,6 +47,9 @@ def esc_text(s):
 def gen_event(rng, idx, opts):
     """returns (lines, model) for one VEVENT"""
     uid = "task-%d-%s@verif" % (idx, "".join(rng.choice("abcdef0123456789") for _ in range(rng.choice([4, 8, 30]))))
+    if opts.get("long_uids") and rng.random() < 0.03:
+        # up to what a content line takes (1023 octets)
+        uid = "task-%d-%s@verif" % (idx, "".join(rng.choice("abcdef0123456789") for _ in range(rng.choice([230, 241, 280, 900]))))
     is_date = rng.random() < 0.25
     d0 = D.date(rng.randint(1990, 2040), rng.randint(1, 12), rng.randint(1, 28))
     ds = d0 if is_date else D.datetime.combine(d0, D.time(rng.randint(0, 23), rng.randint(0, 59), rng.choice([0, 0, 30, 59])))
